@@ -139,7 +139,7 @@ AWKWARD = ['"a.b"', '"a.b.c"', '"{"', '"}"', '"{x}"', '" "', '""', '"."', '".."'
            '"a\\nb"', '"a\\tb"', '"\\n"', '"x\\"', '"a[0]"', '"a^b"', '"`a`"',
            # a parenthesis at one end only (the composite form of a reference is written with parentheses)
            '"(usd"', '"("', '")"', '"a)"', '"(a, b"']
-RAW_ALPHA = ['a', ' ', '\n', "'", '"', '\\', '`', '{', '}', '%', '\t']
+RAW_ALPHA = ['a', ' ', '\n', "'", '"', '\\', '`', '{', '}', '%', '\t', '\r']
 TEXT_SITES = ["Table t {\n  id int [note: @L@]\n}\n", "Table t {\n  id int\n  Note: @L@\n}\n", "Table t {\n  id int [default: @L@]\n}\n",
               "Note n {\n  @L@\n}\n", "Project p {\n  k: @L@\n  Note: @L@\n}\n", "Table t {\n  id int\n  indexes {\n    id [name: @L@, note: @L@]\n  }\n}\n",
               "Enum e {\n  a [note: @L@]\n}\n", "Table t {\n  id int [k: @L@]\n  k2: @L@\n}\n", "Table t {\n  id int\n}\nTableGroup g [note: @L@] {\n  t\n}\nRef: t.id > t.id // @L@\n"]
@@ -220,6 +220,7 @@ def main(argv: List[str]) -> int:
     for seed, doc in ds:
         text = print_doc(doc, seed, {})
         add(text, 'document')
+        add(text.replace('\r\n', '\n').replace('\n', '\r\n'), 'document')          # the same with Windows line ends
         for mtext in mutations(text, r, lexemes, 40 if quick else 120):
             add(mtext, 'mutation')
         # structural mutations: every declaration of one kind removed (references without their tables, groups without their
